@@ -518,10 +518,11 @@ func Run(r *common.Run) error {
 	} {
 		c.hist(true, h, "corpus")
 	}
-	maxLen := r.Pick(2, 3)
+	maxLen := r.Pick(3, 4)
 	for n := 0; n <= maxLen; n++ {
 		enumerate(n, func(ops []string) {
-			if countD(ops) > 1 {
+			// the deadline event waits for real time: at most one, and not in the longest histories
+			if countD(ops) > 1 || (n == maxLen && countD(ops) > 0) {
 				return
 			}
 			c.hist(true, ops, "exhaustive")
@@ -534,7 +535,7 @@ func Run(r *common.Run) error {
 			}
 		})
 	}
-	r.Exhaustive = append(r.Exhaustive, fmt.Sprintf("all histories of length <= %d over %v, with Serve running (and without, when no peer event occurs)", maxLen, alphabet))
+	r.Exhaustive = append(r.Exhaustive, fmt.Sprintf("all histories of length <= %d over %v (the deadline event at most once and only up to length %d), with Serve running (and without, when no peer event occurs)", maxLen, alphabet, maxLen-1))
 	rnd := r.Rnd
 	nRandom := r.Pick(300, 6000)
 	for i := 0; i < nRandom; i++ {
